@@ -213,8 +213,10 @@ def pad_p_vc(mode="constant"):
                            "values are moved, not computed: no float arithmetic involved"])
 
 
-def chunk_p_vc():
-    """P rung: chunk_by_slices (constant mode, lengths given) for SYMBOLIC batch size, extent, feature size, lengths and slice bounds -
+def chunk_p_vc(mode="constant"):
+    """`mode` = 'replicate': three select -> scatter pairs (left padding, right padding, then the slice entries), lengths >= 1; inside the
+    reported length the chunk is the slice of the replicate-padded sequence: x[n, clamp(start + t, 0, len - 1), f].
+    P rung: chunk_by_slices (constant mode, lengths given) for SYMBOLIC batch size, extent, feature size, lengths and slice bounds -
     any bounds: negative starts, ends beyond the length, empty and inverted slices. Same compaction contracts and the same
     window-pair reasoning as pad_variable: source window = the part of the slice inside the sequence, [max(start, 0), min(end, len))
     (empty when that is inverted), destination window = [left, left + its width) with left = the frames the slice starts before the
@@ -243,9 +245,14 @@ def chunk_p_vc():
     LP = lambda n: z3.If(CL(n) == 0, 0, mx_(-ST_(n), 0))
     WID = lambda n: mx_(e0(n) - s0(n), 0)
     dlo, dhi = LP, (lambda n: LP(n) + WID(n))
-    lens_ok = lambda n: z3.Implies(z3.And(0 <= n, n < N), z3.And(0 <= L(n), L(n) <= T))
+    lens_ok = lambda n: z3.Implies(z3.And(0 <= n, n < N), z3.And((1 if mode == "replicate" else 0) <= L(n), L(n) <= T))
     lin_step = lambda i: LIN(i + 1) == LIN(i) + F
     n_, i_ = z3.Ints("n_q i_q")
+    RP = lambda n: z3.If(CL(n) == 0, 0, mx_(EN(n) - L(n), 0))
+    zero = lambda n: z3.IntVal(0)
+    pairs = [("slice", (slo, shi), (dlo, dhi), dlo)]
+    if mode == "replicate":
+        pairs = [("left_padding", (zero, LP), (zero, LP), zero), ("right_padding", (zero, RP), (dhi, lambda n: dhi(n) + RP(n)), dhi)] + pairs
 
     def thunk(I):
         I.stubs.update(stn.stubs())
@@ -254,33 +261,39 @@ def chunk_p_vc():
         slices = stn.ST((N, 2), lambda a, b: SL(z(a), z(b)), "long")
         for y in (lens_ok(N0), lens_ok(N1)):
             I.ex.instance(y)
+        I.ex.ghost["any_points"] = {1: [(N0,), (N1,)]}
         prove_pair = window_pair_prover(I, N, F, LIN, lin_step, lens_ok, (N0, T0, F0), (N1, T1, F1))
         done = []
 
         def hook(rec2, src):
             rec1 = getattr(src, "compaction", None)
-            if rec1 is None or rec1["rank_"] != 3 or rec2["rank_"] != 3 or done:
-                raise ip.Unsupported("a masked_scatter the contract does not know (constant mode performs one, of the selected slice entries)")
+            if rec1 is None or rec1["rank_"] != 3 or rec2["rank_"] != 3 or len(done) >= len(pairs):
+                raise ip.Unsupported("a masked_scatter the contract does not know (mode %s performs %d, each of a masked_select of a rank-3 tensor)" % (mode, len(pairs)))
+            tag, src_win, dst_win, shift = pairs[len(done)]
             I.ex.ghost["Tp"] = rec2["dims"][1]
-            prove_pair("slice", rec1, rec2, (slo, shi), (dlo, dhi), dlo)
-            done.append(1)
-            I.ex.ghost["scatters_done"] = 1
+            prove_pair(tag, rec1, rec2, src_win, dst_win, shift)
+            done.append(tag)
+            I.ex.ghost["scatters_done"] = len(done)
 
         I.ex.ghost["scatter_hooks"] = [hook]
-        return I.call(P.chunk_by_slices, [x, slices, lens, "constant", VAL], {})
+        I.ex.ghost["skolem_hooks"] = [lambda ii: [lens_ok(a) for a in ii]]
+        return I.call(P.chunk_by_slices, [x, slices, lens, mode, VAL], {})
 
     def post(p):
         if not api.returns(p) or not isinstance(p.value, tuple) or len(p.value) != 2 or "Tp" not in p.ghost:
             return False
         out, clens = p.value
         TP = p.ghost["Tp"]
-        if p.ghost.get("scatters_done") != 1:
-            return [("the_slice_entries_were_scattered", z3.BoolVal(False))]
+        if p.ghost.get("scatters_done") != len(pairs):
+            return [("every_scatter_of_the_mode_was_performed", z3.BoolVal(False))]
         at = z3.And(0 <= N0, N0 < N, 0 <= T0, T0 < TP, 0 <= F0, F0 < F)
         o = z(out.elem(N0, T0, F0))
         j = ST_(N0) + T0
-        for mx in p.ghost.get("maxes", []):
-            pass
+        if mode == "replicate":
+            jc = z3.If(j < 0, 0, z3.If(j > L(N0) - 1, L(N0) - 1, j))
+            return [("result_shape", z3.And(z3.BoolVal(len(out.shape) == 3 and len(clens.shape) == 1), z(out.shape[0]) == N, z(out.shape[1]) == TP, z(out.shape[2]) == F, z(clens.shape[0]) == N)),
+                    ("reported_length_is_the_requested_one", z3.Implies(z3.And(0 <= N0, N0 < N), z3.And(z(clens.elem(N0)) == CL(N0), CL(N0) <= TP))),
+                    ("chunk_is_the_slice_of_the_replicate_padded_sequence", z3.Implies(z3.And(at, T0 < CL(N0)), o == X(N0, jc, F0)))]
         return [("result_shape", z3.And(z3.BoolVal(len(out.shape) == 3 and len(clens.shape) == 1), z(out.shape[0]) == N, z(out.shape[1]) == TP, z(out.shape[2]) == F, z(clens.shape[0]) == N)),
                 ("reported_length_is_the_requested_one", z3.Implies(z3.And(0 <= N0, N0 < N), z3.And(z(clens.elem(N0)) == CL(N0), CL(N0) <= TP))),
                 ("inside_the_sequence_the_slice_is_copied", z3.Implies(z3.And(at, T0 < CL(N0), 0 <= j, j < L(N0)), o == X(N0, j, F0))),
@@ -288,12 +301,12 @@ def chunk_p_vc():
                 ("beyond_the_reported_length_the_padding_value", z3.Implies(z3.And(at, T0 >= CL(N0)), o == VAL))]
 
     pre = [N >= 1, T >= 0, F >= 1, z3.ForAll([n_], lens_ok(n_)), LIN(0) == 0, z3.ForAll([i_], lin_step(i_))]
-    return VC("C09.P.chunk_by_slices", "chunk_by_slices[constant; symbolic N, T, F, lengths, slice bounds]", M, "chunk_by_slices", thunk, pre=pre, posts=[("per_sequence_slice", post)],
+    return VC("C09.P.chunk_by_slices", "chunk_by_slices[%s; symbolic N, T, F, lengths, slice bounds]" % mode, M, "chunk_by_slices", thunk, pre=pre, posts=[("per_sequence_slice", post)],
               inputs={"N": N, "T": T, "F": F}, timeout_ms=40000, max_paths=64, witness_hints=[N == 1, T == 2, F == 1],
               assumptions=["masked_select / masked_scatter = stable row-major compaction, stated through per-dimension counters (assumed contract of vf/pyvc/symtensor.py, differentially tested against torch); max over a vector = an attained upper bound (assumed contract)",
                            "lengths within [0, T]: precondition; slice bounds arbitrary integers; lin_F(i) = i * F by its recurrence (definition)",
                            "the inductions (coefficients, frames, sequences) are applied outside the solver: base and step are obligations",
-                           "mode 'constant' with lengths given (reflect / replicate and omitted lengths: bounded driver); values are moved, not computed"])
+                           "modes 'constant' and 'replicate' (lengths >= 1 there - the function raises otherwise) with lengths given (reflect and omitted lengths: bounded driver); values are moved, not computed"])
 
 
 def prove_prefix_compaction(I, rec1, rec2, sm, N, T, F, LIN, lin_step, MASK, sk0, sk1, prove):
@@ -433,7 +446,7 @@ def pad_p_vcs(ctx):
 
 
 def chunk_p_vcs(ctx):
-    return [chunk_p_vc()]
+    return [chunk_p_vc("constant"), chunk_p_vc("replicate")]
 
 
 def shift_vc(training):
